@@ -268,6 +268,9 @@ inductive Update where
   | flat (i : Nat)
   /-- a market event that sets the instrument's price -/
   | price (i : Nat) (p : Rat)
+  /-- any other market / account item or disconnect notice: it changes only state this model does not
+  carry (connectivity, balances, statistics), but the engine still runs its generation stage -/
+  | other
   deriving Repr
 
 def applyUpdate (e : Eng) : Update → Eng
@@ -275,6 +278,7 @@ def applyUpdate (e : Eng) : Update → Eng
   | .position i side q => { e with instruments := modifyInstr e.instruments i fun s => { s with position := some (side, q) } }
   | .flat i => { e with instruments := modifyInstr e.instruments i fun s => { s with position := none } }
   | .price i p => { e with instruments := modifyInstr e.instruments i fun s => { s with price := some p } }
+  | .other => e
 
 /-- `EngineEvent`. -/
 inductive Event where
